@@ -23,6 +23,7 @@ func init() {
 		},
 		Run: runC15,
 		Controls: []Control{
+			{Name: "address-equality-by-ordering", File: "net/ip.go", Old: "func (ip *IP) Equal(other IP) bool {\n", New: "func (ip *IP) Equal(other IP) bool {\n\tif ip.Compare(&other) != 0 {\n\t\treturn false\n\t}\n", Expect: "equality-not-via-partial-ordering"},
 			{Name: "containment-masks-one-address-only", File: "net/prefix.go", Old: "\treturn (pfx.addr.ToUint32() & mask) == (x.addr.ToUint32() & mask)\n", New: "\treturn pfx.addr.ToUint32() == (x.addr.ToUint32() & mask)\n", Expect: "containment-treats-both-addresses-alike"},
 			{Name: "refactor-containment-through-locals", Silent: true, File: "net/prefix.go", Old: "\treturn (pfx.addr.ToUint32() & mask) == (x.addr.ToUint32() & mask)\n", New: "\tmine := pfx.addr.ToUint32() & mask\n\ttheirs := x.addr.ToUint32() & mask\n\treturn theirs == mine\n"},
 			{Name: "supernet-half-chosen-by-other-length", File: "net/prefix.go", Old: "\tif pfxLen > 64 {\n\t\tmask := uint64(math.MaxUint64 << (128 - pfxLen))", New: "\tif maxPfxLen > 64 {\n\t\tmask := uint64(math.MaxUint64 << (128 - pfxLen))", Expect: "bound-agrees-with-base"},
@@ -85,6 +86,7 @@ func addressOrdering(c *core.Ctx) {
 }
 
 func runC15(c *core.Ctx) {
+	equalityNotViaPartialOrdering(c, "equality-not-via-partial-ordering", []string{"net"}, 2)
 	p := c.P
 	addressOrdering(c)
 	containmentMirror(c)
